@@ -44,6 +44,11 @@ SWAPS = [
     (r"/ 2\b", "/ 3"), (r"\* 2\b", "* 3"), (r"2\*", "3*"),
     (r">>= 1", ">>= 2"), (r"\bbreak\b", "continue"),
     (r"\[:(\w+)\]", r"[:\1-1]"), (r"\[(\w+):\]", r"[\1+1:]"),
+    # pass 3: branch forcing, negation removal, small constants
+    (r"\bif (?!true \{|false \{)[^{;]+ \{$", "if true {"), (r"\bif (?!true \{|false \{)[^{;]+ \{$", "if false {"),
+    (r"(?<![\w)\]])!(?=[\w(])", ""),
+    (r"(?<=[=<>(,\[ ])0(?=[;,)\] ]|$)", "1"), (r"(?<=[=<>(,\[ ])1(?=[;,)\] ]|$)", "2"),
+    (r"\blen\((\w+)\)", r"(len(\1)-1)"),
 ]
 
 
